@@ -188,6 +188,7 @@ type Parser struct {
 	path      string
 	prefix    string
 	currFunc  string
+	currTypes []ValueType         // Stores the return types of the function which is currently being parsed.
 	usedFuncs map[string][]string // Stores which function (key) calls which functions (values).
 	importing []string            // Stores the files whose imports are currently being evaluated.
 }
@@ -1464,6 +1465,7 @@ func (p *Parser) evaluateFunctionDefinition(ctx context) (Statement, error) {
 
 	// Make sure sub-statements know in which function they are currently in.
 	p.currFunc = prefixedName
+	p.currTypes = returnTypes
 
 	statements, err := p.evaluateBlock(func(statements []Statement, last bool) error {
 		var errTemp error
@@ -1504,6 +1506,7 @@ func (p *Parser) evaluateFunctionDefinition(ctx context) (Statement, error) {
 		return nil, err
 	}
 	p.currFunc = ""
+	p.currTypes = nil
 
 	return FunctionDefinition{
 		name:        prefixedName,
@@ -1523,13 +1526,36 @@ func (p *Parser) evaluateReturn(ctx context) (Statement, error) {
 	if returnToken.Type() != lexer.RETURN {
 		return nil, p.expectedKeywordError("return", returnToken)
 	}
+	valuesToken := p.peek()
 	evaluatedVals, err := p.evaluateValues(ctx)
 
 	if err != nil {
 		return nil, err
 	}
+	values := evaluatedVals.values
+	returnTypes := p.currTypes
+
+	// Every return statement (not only the last one) must return what the function declares.
+	if len(values) != len(returnTypes) {
+		return nil, p.atError(fmt.Sprintf("function requires %d return values but returns %d", len(returnTypes), len(values)), valuesToken)
+	}
+
+	for i, value := range values {
+		returnType := returnTypes[i]
+
+		// Where a slice is returned, nil stands for the empty slice.
+		if literal, ok := value.(StringLiteral); ok && literal.IsNil() && returnType.IsSlice() {
+			value = SliceInstantiation{dataType: returnType.DataType()}
+			values[i] = value
+		}
+		valueType := value.ValueType()
+
+		if !valueType.Equals(returnType) {
+			return nil, p.expectedError(fmt.Sprintf("%s but got %s as return value", returnType.String(), valueType.String()), valuesToken)
+		}
+	}
 	return Return{
-		values: evaluatedVals.values,
+		values: values,
 	}, nil
 }
 
@@ -2032,8 +2058,8 @@ func (p *Parser) evaluateSingleExpression(ctx context) (Expression, error) {
 			value: integer,
 		}
 	case lexer.NIL_LITERAL:
-		p.eat()                // Eat string token.
-		expr = StringLiteral{} // nil is an empty string literal.
+		p.eat()                           // Eat string token.
+		expr = StringLiteral{isNil: true} // nil is an empty string literal.
 	case lexer.STRING_LITERAL:
 		p.eat() // Eat string token.
 		expr = StringLiteral{
